@@ -83,6 +83,9 @@ func execOp(op string, o *proto.Out) string {
 	if len(w) > 0 && w[0] == "txn" {
 		return execTxn(op, w, o)
 	}
+	if len(w) > 0 && w[0] == "multi" {
+		return execMulti(op, w, o)
+	}
 	if len(w) == 0 || w[0] != "obf" {
 		return "bad-op"
 	}
